@@ -419,7 +419,7 @@ def run_row(facts, rep, row, short_override=None):
                 cb = next(iter(sites))
                 ct = body.term(cb)
                 H = facts.bodies.get(ct.get("callee") or "") if ct["k"] == "call" else None
-                if H is not None and H.crate == "nomt" and H.kind != "Closure":
+                if H is not None and H.crate == "nomt" and H.kind != "Closure" and H.id not in EFFECT_CALLS and H.id not in (row.get("extra") or {}) and not short_override:
                     sub = dict(row)
                     sub["fn"] = H.id
                     sub["guards"] = {gname: (minc, subset)}
